@@ -33,6 +33,8 @@ Section Prims.
   Qed.
   Lemma gv_tempo st rid k T i v : gv (fst (x_tempo rt st rid k T i v)) = gv st.
   Proof. reflexivity. Qed.
+  Lemma gv_setbeats st rid k T i v : gv (fst (x_setbeats rt st rid k T i v)) = gv st.
+  Proof. unfold x_setbeats. destruct (nth_error (n_tcs (x_n st)) i); reflexivity. Qed.
   Lemma gv_signal st T c : gv (fst (x_signal dd rt st T c)) = gv st.
   Proof.
     unfold x_signal. destruct (nth_error (x_conds st) c) as [[t ws]|]; auto.
@@ -85,6 +87,8 @@ Section Prims.
       + rewrite gv_play; auto.
       + rewrite gv_tempo; auto.
       + rewrite gv_tempo; auto.
+      + rewrite gv_setbeats; auto.
+      + rewrite gv_setbeats; auto.
       + apply Pseed; auto.
       + apply Pseed; auto.
       + apply Pdraw; auto.
